@@ -39,12 +39,13 @@ FIELDS = ['offset', 'length', 'message', 'replacements', 'replacements.0', 'repl
           'rule.subId', 'rule.category', 'rule.category.name', 'rule.urls', 'rule.urls.0',
           'rule.urls.0.value', 'MATCH', 'NONE']
 KINDS = ['absent', 'int', 'str', 'list', 'dict', 'none', 'bool', 'float', 'float_int', 'str_nl',
-         'str_empty']
+         'str_empty', 'str_surrogate']
 
 
 def value_of(kind):
     return {'int': 7, 'str': 'x<y>&"z', 'list': [], 'dict': {}, 'none': None, 'bool': True,
-            'float': 1.5, 'float_int': 2.0, 'str_nl': 'line one\nline "two"\t<b>', 'str_empty': ''}[kind]
+            'float': 1.5, 'float_int': 2.0, 'str_nl': 'line one\nline "two"\t<b>', 'str_empty': '',
+            'str_surrogate': 'lone \ud800 surrogate'}[kind]
 
 
 def base_match(o, l, co, cl):
@@ -86,14 +87,15 @@ def infile(tex, lin0, col0):
     return 0 <= lin0 < len(lines) and 0 <= col0 <= len(lines[lin0]) + 1
 
 
-def run_modes(env, tex, lang, answer_matches):
+def run_modes(env, tex, lang, answer_matches, via_bytes=True):
     """all output modes on one answer; returns None or a violation message"""
     cache = {}
     for mode in ('plain', 'json', 'xml', 'xml-b', 'html', 'server'):
         err = io.StringIO()
         try:
             with contextlib.redirect_stderr(err):
-                r = _one_mode(env, tex, lang, copy.deepcopy(answer_matches), mode, cache)
+                r = (_one_mode if via_bytes else _one_mode_direct)(
+                    env, tex, lang, copy.deepcopy(answer_matches), mode, cache)
         except SystemExit as ex:
             if ex.code != 1 or '***' not in err.getvalue():
                 return 'C15 mode %s: exit status %r without the shell\'s diagnostic (%r)' % (
@@ -107,7 +109,37 @@ def run_modes(env, tex, lang, answer_matches):
 
 
 def _one_mode(env, tex, lang, ms, mode, cache):
+    # the answer goes through the real decoding code of run_languagetool: the proofreader
+    # process is stubbed at subprocess.run and delivers the answer as JSON bytes
+    pr = env.proofreader
+    state = {'n': 0}
+    blob = json.dumps({'matches': ms}).encode('utf-8')
+
+    class R:
+        stdout = b''
+
+    def run(cmd, cwd=None, input=None, stdout=None):
+        r = R()
+        r.stdout = blob if state['n'] == 0 else b'{"matches": []}'
+        state['n'] += 1
+        return r
+    saved = pr.run_languagetool, pr.subprocess.run
+    pr.run_languagetool = shellenv.REAL_LT
+    pr.subprocess.run = run
+    try:
+        return _one_mode2(env, tex, lang, ms, mode, cache)
+    finally:
+        pr.run_languagetool, pr.subprocess.run = saved
+
+
+def _one_mode_direct(env, tex, lang, ms, mode, cache):
+    """symbolic offsets / lengths (harnesses range, ctx): the answer is handed over behind the
+    JSON decoder (serialising a symbolic integer would make CrossHair enumerate its values)"""
     env.answer = lambda plain, language, n: (copy.deepcopy(ms) if n == 0 else [])
+    return _one_mode2(env, tex, lang, ms, mode, cache)
+
+
+def _one_mode2(env, tex, lang, ms, mode, cache):
     env.calls.clear()
     jget = env.vars.json_get
     if mode == 'server':
@@ -131,6 +163,7 @@ def _one_mode(env, tex, lang, ms, mode, cache):
     out = io.StringIO()
     if mode == 'plain':
         env.gentext.output_text_report(tex, plain_tot, cm_tot, matches, 'f.tex', out)
+        out.getvalue().encode('utf-8')
         for lin, col in re.findall(r'\d+\.\) Line (\d+), column (\d+),', out.getvalue()):
             if not infile(tex, int(lin) - 1, int(col) - 1):
                 return 'reports line %s column %s, outside the file' % (lin, col)
@@ -145,6 +178,7 @@ def _one_mode(env, tex, lang, ms, mode, cache):
     elif mode in ('xml', 'xml-b'):
         env.genxml.output_xml_report(tex, plain_tot, cm_tot, matches, mode == 'xml-b', 'f.tex',
                                      out)
+        out.getvalue().encode('utf-8')
         for e in re.findall(r'<error ([^>]*)/>', out.getvalue()):
             at = dict(re.findall(r'(\w+)="([^"]*)"', e))
             lines = tex.split('\n')
@@ -155,6 +189,7 @@ def _one_mode(env, tex, lang, ms, mode, cache):
                 return 'reports from (%d,%d), outside the file' % (y, x)
     elif mode == 'html':
         t, a, body, n = env.genhtml.generate_html(tex, cm_tot, matches, 'f.tex')
+        body.encode('utf-8')          # the shell writes the report to a UTF-8 stream
         nl = tex.count('\n') + (0 if tex.endswith('\n') else 1)
         for num in re.findall(r'valign="top">(\d+)&nbsp;', body):
             if not (1 <= int(num) <= nl):
@@ -178,8 +213,11 @@ def items(tier, seed):
         for fi in range(len(FIELDS) - 1):
             out.append({'h': 'shape', 'doc': d[0], 'fi': fi, 'sym': 'kind', 'cost': 2})
         if tier != 'quick' or d[0] == 'plain':
-            out.append({'h': 'shape', 'doc': d[0], 'fi': len(FIELDS) - 1, 'sym': 'range',
-                        'cost': 9, 'budget': 900})
+            # offset symbolic and unbounded; one work item per length (parallel)
+            for lf in ((-1, 0, 1, 2, 7, 1000) if tier == 'quick' else
+                       (-1000, -2, -1, 0, 1, 2, 3, 5, 7, 12, 50, 1000)):
+                out.append({'h': 'shape', 'doc': d[0], 'fi': len(FIELDS) - 1, 'sym': 'range',
+                            'lfix': lf, 'cost': 9, 'budget': 900})
             out.append({'h': 'shape', 'doc': d[0], 'fi': len(FIELDS) - 1, 'sym': 'ctx',
                         'cost': 9, 'budget': 900})
         out.append({'h': 'trunc', 'doc': d[0], 'cost': 5})
@@ -225,7 +263,8 @@ def build(item):
         def check(ki, o, l, co, cl):
             m = mutate(base_match(o, l, co, cl), field, KINDS[ki])
             ms = [m] if not (field == 'MATCH' and KINDS[ki] == 'absent') else []
-            r = with_native_filter(lambda: run_modes(env, tex, lang, ms))
+            r = with_native_filter(lambda: run_modes(
+                env, tex, lang, ms, via_bytes=(item.get('sym', 'kind') == 'kind')))
             if twin:
                 return 'TWIN' if r is None else r
             return r
@@ -238,7 +277,7 @@ def build(item):
                 if not (0 <= ki < len(KINDS)) or o != 1 or l != 2 or co != 3 or cl != 4:
                     return D.SKIP
             elif sym == 'range':
-                if ki != 0 or co != 3 or cl != 4:
+                if ki != 0 or co != 3 or cl != 4 or l != item.get('lfix', 1):
                     return D.SKIP
             else:
                 if ki != 0 or o != 1 or l != 2 or not (-2 <= co <= 9) or not (-2 <= cl <= 9):
